@@ -77,7 +77,7 @@ int parse_instruction_cp1610(AsmContext *asm_context, char *instr)
 
     if (IS_TOKEN(token, '@') && operand_count == 0)
     {
-      if (strlen(token) > 6)
+      if (strlen(instr_case) > 6)
       {
         print_error_unexp(asm_context, token);
         return -1;
